@@ -226,6 +226,8 @@ def c15_gens(rng, rnd):
         "mapof": g("MapOfN", key=IntRange(0, 5), val=g("Bool"), minLen=0, maxLen=5),
         "mapvalues": g("MapOfValues", val=IntRange(0, 4)),
         "perm": g("Permutation", items=[str(i) for i in range(8)]),
+        "perm2": g("Permutation", items=["1", "2"]),        # (short inputs: the identity permutation is drawn often)
+        "perm3": g("Permutation", items=["5", "6", "7"]),
         "ptr": g("Ptr", elem=g("Float64"), allowNil=True),
         "floats": g("Float64Range", min="-1000", max="1000"),
         "runes": g("StringOf", elem=g("RuneFrom", expr="", items=["Lu", "Nd"])),
